@@ -94,7 +94,9 @@ class EpsilonIndicator(Indicator):
             return POSITIVE_INFINITY
 
         normalize(feasible, self.minimum, self.maximum)
-        return max([min([max([s2.normalized_objectives[k] - s1.normalized_objectives[k] for k in range(s2.problem.nobjs)]) for s2 in feasible]) for s1 in self.reference_set])
+        directions = feasible[0].problem.directions
+        sign = [-1.0 if directions[k] == Direction.MAXIMIZE else 1.0 for k in range(feasible[0].problem.nobjs)]
+        return max([min([max([sign[k]*(s2.normalized_objectives[k] - s1.normalized_objectives[k]) for k in range(s2.problem.nobjs)]) for s2 in feasible]) for s1 in self.reference_set])
 
 class Spacing(Indicator):
     """Spacing performance indicator."""
